@@ -113,6 +113,11 @@ def check_case(acc, case, via_web=False):
             text = capture_via_web(world)
         else:
             text = ScriptSnapshot().generate(None).text
+    except RetrieveMismatch as ex:
+        acc.case(key=repr(case), nontrivial=nontrivial,
+                 labels=['snapshot', 'web'])
+        acc.fail('retrieve-button-runs-another-file', str(ex), payload)
+        return
     except Exception as ex:
         acc.case(key=repr(case), nontrivial=nontrivial,
                  labels=['snapshot', 'capture-raised'])
@@ -187,6 +192,10 @@ def _suffix(population):
     return ''
 
 
+class RetrieveMismatch(Exception):
+    pass
+
+
 def capture_via_web(world):
     from bardolph.lib import injection, settings
     from bardolph.lib.i_lib import Settings
@@ -198,7 +207,19 @@ def capture_via_web(world):
     settings.using(config).configure()
     app = WebApp()
     app.snapshot()
-    path = os.path.join(directory, '__snapshot__.ls')
+    # "Clicking on Retrieve runs that script": the file the shipped
+    # manifest's Retrieve button names, in the same script directory
+    import json
+    with open(os.path.join(env.REPO, 'web', 'manifest.json')) as src:
+        manifest = json.load(src)
+    retrieve = [e for e in manifest if e.get('path') == 'retrieve']
+    written = sorted(os.listdir(directory))
+    if len(retrieve) != 1 or retrieve[0].get('file_name') not in written:
+        shutil.rmtree(directory, ignore_errors=True)
+        raise RetrieveMismatch(
+            'Capture wrote {} but the Retrieve button of web/manifest.json '
+            'runs {}'.format(written, [e.get('file_name') for e in retrieve]))
+    path = os.path.join(directory, retrieve[0]['file_name'])
     with open(path, encoding=None) as src:
         text = src.read()
     shutil.rmtree(directory, ignore_errors=True)
